@@ -38,6 +38,10 @@ Stride(shape, i) == ProdSeq(SubSeq(shape, i + 1, Len(shape)))
 Unravel(p, shape) == [i \in 1..Len(shape) |-> (p \div Stride(shape, i)) % shape[i]]
 Ravel(idx, shape) == SumSeqInt([i \in 1..Len(shape) |-> idx[i] * Stride(shape, i)])
 
+ISqrt(n) == CHOOSE r \in 0..n : r * r = n
+IsSquare(n) == n >= 0 /\ \E r \in 0..n : r * r = n
+AbsI(a) == IF a < 0 THEN 0 - a ELSE a
+
 SeqRange(s) == {s[i] : i \in 1..Len(s)}
 IsPermOf(p, n) == Len(p) = n /\ SeqRange(p) = 1..n
 Permuted(seq, p) == [i \in 1..Len(p) |-> seq[p[i]]]
